@@ -17,7 +17,32 @@ def ext_fromarray(ex, st, args, kwargs, node):
     o.fields["array"] = args[0]
     o.fields["chunks"] = args[1]
     o.fields["_region"] = kwargs.get("_region", E_NONE())
+    # the keyword operands that decide HOW the source is read (a custom getitem, the lock, asarray / fancy, the meta) and
+    # how the node is inlined: recorded as passed, so that a rewrite's contract can demand they are carried over
+    o.fields["__passed__"] = {k: v for k, v in kwargs.items() if k in READ_OPERANDS}
     return o
+
+
+READ_OPERANDS = ("lock", "getitem", "inline_array", "meta", "asarray", "fancy")
+
+
+def carried_over(new_io, old):
+    """every read-behaviour operand of the rebuilt node is the old node's (same symbolic value)"""
+    import z3
+    passed = new_io.fields.get("__passed__", {})
+    out = {}
+    for k in READ_OPERANDS:
+        if k not in passed:
+            out[f"operand-{k}-carried-over"] = False  # left to the constructor's default: the old node's value is lost
+            continue
+        a, b = passed[k], old.get(k)
+        ta = a if z3.is_expr(a) else getattr(a, "t", None)
+        tb = b if z3.is_expr(b) else getattr(b, "t", None)
+        import os
+        if os.environ.get("VERIF_DEBUG_CARRY"):
+            print("CARRY", k, type(a).__name__, type(b).__name__, ta, tb)
+        out[f"operand-{k}-carried-over"] = (ta is not None and tb is not None and ta.eq(tb)) or (a is b)
+    return out
 
 
 def E_NONE():
@@ -140,6 +165,7 @@ def make(spec, index_ty, region_ty):
             out = {}
             eff = S.item(self.get("_effective_shape"), 0)
             ch = S.item(io.fields["chunks"], 0)
+            out.update(carried_over(io, self))
             out["chunks-add-up-to-selection"] = S.ssum(ch) == S.nsel(idx, eff)
             out["chunks-nonneg"] = S.chunking(ch)
             out["chunks-nonempty"] = S.slen(ch) >= 1
@@ -167,6 +193,30 @@ def make(spec, index_ty, region_ty):
 
     accept_slice.__name__ = f"accept_slice__{spec}"
     return accept_slice
+
+
+@contract(f"{FA}::FromArray._with_chunks", props=["C24", "C14"])
+class with_chunks:
+    """a rechunk absorbed into a source read rebuilds the read with the new chunks and NOTHING else changed: the same source,
+    the same deferred region, and every operand that decides how the source is read (getitem, lock, asarray, fancy, meta,
+    inline_array) carried over -- a custom getitem that decodes or bounds-checks keeps being used"""
+    params = {"self": "obj:FromArray", "chunks": "tup:seq"}
+    result = "obj:FromArray"
+    fields = {"FromArray": {"array": "obj:Source", "chunks": "tup:seq", "_region": "tup:slice", "_name": "str", "inline_array": "bool",
+                            "lock": "abs:Any", "getitem": "abs:Any", "meta": "abs:Any", "asarray": "abs:Any", "fancy": "abs:Any"},
+              "Source": {"shape": "tup:int"}}
+    externals = {"FromArray": ext_fromarray, "tokenize": ext_tokenize}
+
+    def requires(self, chunks):
+        return True
+
+    def ensures(result, self, chunks):
+        out = {"same-source": result.fields["array"] is self.get("array"),
+               "requested-chunks": S.seq_equal(S.item(result.fields["chunks"], 0), S.item(chunks, 0)),
+               "same-region": result.fields["_region"] is self.get("_region") or S.slice_eq(
+                   result.fields["_region"].items[0], self.get("_region").items[0])}
+        out.update(carried_over(result, self))
+        return out
 
 
 A1 = make("r1-slice", "tup:slice", "none")
